@@ -137,7 +137,8 @@ Pop(c) == SubSeq(c, 1, Len(c) - 1)
 \* [c |-> new conditional stack, ok |-> explained]
 ReaderStep(c, e) ==
   LET opener == e.cls \in {"if", "ifdef", "ifndef"} IN
-  CASE e.ev = "rline" /\ opener ->
+  CASE e.ev = "mline" -> [c |-> c, ok |-> TRUE]                    \* recorded text, whatever it is: no effect on the reader
+    [] e.ev = "rline" /\ opener ->
          [c |-> Push(c, e.taken = 1), ok |-> AllActive(c) /\ e.taken \in {0, 1}]
     [] e.ev = "sline" /\ opener ->
          [c |-> Append(c, [active |-> FALSE, taken |-> TRUE, else |-> FALSE]), ok |-> ~AllActive(c)]
@@ -173,7 +174,7 @@ Consume(ok) ==
   /\ LET isr == Rec_[l].ev \in ReaderEvents
          r == IF isr THEN [s |-> st, ok |-> Reader(rd, Rec_[l]).ok] ELSE Step(st, Rec_[l]) IN
        /\ r.ok = ok
-       /\ st' = r.s
+       /\ st' = IF Rec_[l].ev = "end" THEN Fresh("classic", 96) ELSE r.s      \* nothing of a build outlives its end
        /\ rd' = IF isr THEN Reader(rd, Rec_[l]).r ELSE IF Rec_[l].ev = "end" THEN << >> ELSE rd
        /\ IF ok THEN nbad' = nbad
           ELSE /\ PrintT(<<"REJECT", l, ToJson([ev |-> Rec_[l].ev])>>) /\ nbad' = nbad + 1
